@@ -171,6 +171,18 @@ CHECKS['C10'] = dict(
     design_ref='DESIGN.md section 6, C10',
     technique='Coq proof (per-ending theorems and close-sweep theorem on the endpoint model; refutation witnesses for the recorded finding) + in-Coq trace correspondence of table/cache key sets with a real endpoint')
 
+CHECKS['C09'] = dict(
+    text='Theorems (props/C09.v): cancel() of a stream subscription sends exactly one CANCEL, drops the stream, and in EVERY continuation '
+         'the canceller\'s subscriber is told nothing more; elements and fragments in flight are dropped without trace; after the caller '
+         'cancels a request-response the library never resolves it and the callback sends exactly one CANCEL (none if already answered); '
+         'a received CANCEL cancels the handler future / publisher in the same atomic section and drops the responder; local and remote '
+         'cancels touch only their own stream. REFUTED for a channel whose own sending direction is open (in-flight elements still '
+         'delivered; known finding KF-C09-channel-cancel-inflight). Tied to the code by the cancellation projection of recorded histories '
+         'of a real endpoint (cancel racing elements, completion, errors and connection loss in the same loop iteration) replayed '
+         'through the model in Coq, plus the oracle. That the library\'s sources stop producing after cancel() is C06.',
+    design_ref='DESIGN.md section 6, C09',
+    technique='Coq proof (cancel theorems over all continuations of the endpoint model; refutation witness for the recorded finding) + in-Coq trace correspondence with a real endpoint')
+
 NOT_YET = {}
 
 def main():
